@@ -23,7 +23,8 @@ EXPLANATION = (
     'when not purging; R-C15.4 signature entries are removed only from the '
     'simulation\'s own app signature with the mutation\'s own model name; '
     'R-C15.5 ProjectSignature.get_app_sig resolves a name by exact app id '
-    'first and uses the legacy-label alias only as a fallback.')
+    'first and uses the legacy-label alias only as a fallback; '
+    'R-C15.6 BaseEvolutionTask.execute_tasks reaches the loop over its tasks on every normal path (an empty list excepted) and every iteration calls task.execute(); PurgeAppTask.execute runs its SQL under no condition other than evolution_required.')
 NOT_DECIDED = (
     'Non-interference with other apps\' tables and rows for every project '
     'layout (prefix table names, shared m2m tables).')
@@ -289,10 +290,10 @@ def r4_signature_removal_scoped(ctx):
             ctx.finding(f, c, 'remove_app_sig called from %s' % f.qualname)
 
 
-def r5_exact_lookup_first(ctx):
+def r5_exact_lookup_first(ctx, rule_id='R-C15.5'):
     """The app named for purge/delete is resolved by exact app id first; the
     legacy-label alias is only a fallback."""
-    ctx.rule('R-C15.5')
+    ctx.rule(rule_id)
     p = ctx.program
     f = p.func('signature', 'ProjectSignature.get_app_sig')
     g = ctx.cfg(f)
@@ -338,7 +339,74 @@ def r5_exact_lookup_first(ctx):
                    l.ast)
 
 
+def r6_every_task_executed(ctx):
+    """PurgeAppTask.prepare has already removed the purged app's models from
+    the project signature that Evolver.evolve is going to save.  The tables
+    go with them only if the generic BaseEvolutionTask.execute_tasks really
+    executes every task it is handed: every normal path through it reaches
+    the loop over `tasks`, and every iteration calls task.execute()."""
+    ctx.rule('R-C15.6')
+    p = ctx.program
+    f = p.func('evolve.base', 'BaseEvolutionTask.execute_tasks')
+    g = ctx.cfg(f)
+    from ..util import for_heads, loop_body_ids
+    heads = [h for h in for_heads(g)
+             if isinstance(h.ast.iter, ast.Name) and h.ast.iter.id == 'tasks']
+    if not heads:
+        ctx.finding(f, None, 'execute_tasks does not iterate over the tasks '
+                    'it is given', key='no-loop-over-tasks')
+        return
+    head = heads[0]
+    # an early return for an empty task list skips nothing
+    empty_tests = [t for t in g.nodes if t.kind == 'test' and
+                   ' '.join(unparse(t.ast).split()) in (
+                       'tasks', 'not tasks', 'len(tasks) == 0',
+                       'len(tasks) > 0', 'len(tasks)')]
+    w = g.path(g.entry, g.exit, avoid=[head] + empty_tests, follow_exc=False)
+    if w is None:
+        ctx.ok(f, 'every normal path through execute_tasks reaches the loop '
+               'over tasks', head.ast)
+    else:
+        ctx.finding(f, head.ast, 'execute_tasks can return without visiting '
+                    'the tasks: their SQL (DROP TABLE of the purged app) is '
+                    'skipped while the signature entries are already removed',
+                    path=w, key='tasks-skipped')
+    body = loop_body_ids(g, head)
+    execs = [n for n in g.nodes if n.id in body and any(
+        call_name(c) == 'execute' and isinstance(c.func, ast.Attribute) and
+        isinstance(c.func.value, ast.Name) and
+        c.func.value.id == getattr(head.ast.target, 'id', None)
+        for c in n.calls())]
+    first = [s for s, l in head.succ if l == 'T']
+    if execs and first and g.path(first[0], head, avoid=execs,
+                                  follow_exc=False) is None:
+        ctx.ok(f, 'each iteration calls task.execute()', execs[0].ast)
+    else:
+        ctx.finding(f, head.ast, 'an iteration of the task loop can finish '
+                    'without calling task.execute()', key='task-not-executed')
+    # the task itself: evolution_required and sql are set together
+    t = p.func('evolve.purge_app_task', 'PurgeAppTask.execute')
+    gt = ctx.cfg(t)
+    runs = [n for n in gt.nodes if any(call_name(c) == 'run_sql'
+                                       for c in n.calls())]
+    ctx.floor('run_sql calls in PurgeAppTask.execute', len(runs), 1)
+    tests = [x for x in gt.nodes if x.kind == 'test' and
+             any(gt.guarded_by(r, x, 'T') or gt.guarded_by(r, x, 'F')
+                 for r in runs)]
+    allowed = [x for x in tests if unparse(x.ast) in (
+        'self.evolution_required', 'self.sql', 'sql_executor')]
+    if len(allowed) == len(tests):
+        ctx.ok(t, 'the purge SQL runs whenever the task prepared any',
+               runs[0].ast)
+    else:
+        extra = [unparse(x.ast) for x in tests if x not in allowed]
+        ctx.finding(t, runs[0].ast, 'the purge SQL is additionally '
+                    'conditional on %s' % ', '.join(extra),
+                    key='purge-sql-conditional')
+
+
 def run(ctx):
+    r6_every_task_executed(ctx)
     r5_exact_lookup_first(ctx)
     r1_who_may_drop(ctx)
     r2_argument_provenance(ctx)
